@@ -36,7 +36,7 @@ func init() {
 			"record split / coalesce, and structure-aware edits of handshake messages (length fields, vector counts, ids, versions, whole-message delete / duplicate / truncate), re-sealed with the transcript's keys where the key log opens it; plus random byte streams. " +
 			"Driver programs on the zcrypto side: Handshake / Read / Write first, ConnectionState, GetHandshakeLog + json.Marshal, Close, optional concurrent ConnectionState observer. " +
 			"non-trivial = the endpoint was alive and waiting for input when the first faulted record was sent; distinct by (transcript, plan)",
-		MinNontrivial:         4000,
+		MinNontrivial:         8000,
 		MinNontrivialThorough: 80000,
 		Shards:                16,
 		Env:                   []string{godebug},
@@ -697,8 +697,8 @@ func judge(c *core.Ctx, caseID string, input map[string]any, chunks [][]byte, o 
 func runC32(c *core.Ctx) {
 	scs := scenarios()
 	c.Count("scenarios", len(scs))
-	plansPer := c.Pick(150, 3000)
-	randomPer := c.Pick(25, 400)
+	plansPer := c.Pick(110, 3000)
+	randomPer := c.Pick(15, 400)
 	for si := range scs {
 		sc := &scs[si]
 		if si%c.NShards != c.Shard {
